@@ -521,7 +521,13 @@ fn socket_scenario(ty: Ty, stage: u8, spec: String, eof_after: bool) -> Verdict 
                                 }
                             }
                         }
-                        None => world::log("recv abandoned (no reply from the peer that got the request)"),
+                        None => {
+                            // the request went to the victim, which stays silent: a REQ socket legitimately
+                            // waits for that reply (lock-step) and refuses further requests; not judged
+                            world::log("recv abandoned: the victim got the request and never answers (REQ lock-step, not judged)");
+                            ok2.set(true);
+                            break;
+                        }
                     }
                 }
             }
